@@ -67,6 +67,18 @@ CLAIMED = {
              'alphabets and the set of kinds that actually have sort weights are regenerated from the running code.',
         technique='Lean 4 proof (generic meaning preservation over the merge loop, union lemma) + kernel-evaluated counter-witnesses + differential run',
         ref='8/C10'),
+    'C14': dict(
+        text='Lean 4 theorems on the model of GetApparmorLogs, for every record test and every cleaning function (hence every regex '
+             'list): nothing reported that is not a cleaned matching input record, every matching non-noise record reported, no '
+             'duplicates, input order, and the exact online rule (one more line adds its cleaned form iff it matches, is not noise and '
+             'is new) which also states that nothing stops early. The model, instantiated with the regenerated regex lists run by '
+             'a regex engine, is run against GetApparmorLogs; the real output is compared with the expected report computed from '
+             'generated structured events; the real aa-log binary is run three times per mode for output determinism.',
+        note='Trusted: Lean kernel; the Rx engine (no theorem depends on it) is tied to Go regexp by the differential run on the '
+             'regenerated lists; scanner limit (64 MiB after the fix) and journald JSON unwrapping are not modelled; the filter '
+             'is modelled for plain names only (regex metacharacters are a known finding).',
+        technique='Lean 4 proof (generic pipeline refinement: filter, map, first-occurrence dedup) + regenerated regex lists + differential run + event-level oracle',
+        ref='8/C14'),
 }
 
 REASON_TODO = 'check not built yet in this round; no claim is made (see DESIGN.md section 13)'
